@@ -314,6 +314,76 @@ pub fn generate_long_history(out: &Path) -> Result<(), String> {
     Ok(())
 }
 
+/// A directory whose payloads look like encodings (complete / trailed / truncated compressed
+/// streams, bare magic numbers, armoured text), as versions and as snapshots, written through
+/// the pinned tree's storage API: a later release that starts to encode what it stores, and
+/// guesses from the bytes whether a stored value is encoded, meets them here.
+pub fn generate_encoded_payloads(out: &Path) -> Result<(), String> {
+    use taskchampion_sync_server_core::{Snapshot, Storage};
+    if has_extra(out, "encoded-payloads") {
+        return Ok(());
+    }
+    let n = std::fs::read_dir(out).map_err(|e| e.to_string())?.count();
+    let d = out.join(format!("raw-{n:04}"));
+    let scratch = Scratch::new("encoded-payloads");
+    let dir = scratch.path().join("data");
+    std::fs::create_dir_all(&dir).map_err(|e| e.to_string())?;
+    let e = |x: anyhow::Error| format!("{x:#}");
+    let mut known: Vec<Uuid> = vec![Uuid::nil()];
+    let mut payloads: Vec<Vec<u8>> = crate::epayload::CODED.iter().map(|c| crate::epayload::gen_coded(c, GEN_SEED)).collect();
+    // magic numbers followed by bytes that are no stream at all
+    payloads.push([&[0x1fu8, 0x8b][..], &crate::epayload::gen("random", 60, GEN_SEED)[..]].concat());
+    payloads.push([&[0x78u8, 0x9c][..], &crate::epayload::gen("random", 60, GEN_SEED + 1)[..]].concat());
+    payloads.push(vec![0x1f, 0x8b]);
+    {
+        let st = taskchampion_sync_server_storage_sqlite::SqliteStorage::new(&dir).map_err(e)?;
+        for c in [0u8, 1u8] {
+            let cu = client_uuid(GEN_SEED, c);
+            let mut t = st.txn(cu).map_err(e)?;
+            t.new_client(Uuid::nil()).map_err(e)?;
+            t.commit().map_err(e)?;
+            drop(t);
+            let mut parent = Uuid::nil();
+            // client 1 holds the same payloads in reverse order, and the other snapshot
+            let order: Vec<usize> = if c == 0 { (0..payloads.len()).collect() } else { (0..payloads.len()).rev().collect() };
+            for (i, &k) in order.iter().enumerate() {
+                let id = crate::sut::det_uuid(GEN_SEED, 90 + c as u64, i as u64);
+                known.push(id);
+                let mut t = st.txn(cu).map_err(e)?;
+                t.add_version(id, parent, payloads[k].clone()).map_err(e)?;
+                if i + 1 == order.len() {
+                    let snap = if c == 0 { crate::epayload::gen_coded("gzip", GEN_SEED) } else { crate::epayload::gen_coded("zlib+tail", GEN_SEED) };
+                    t.set_snapshot(Snapshot { version_id: id, timestamp: chrono::Utc::now(), versions_since: 0 }, snap).map_err(e)?;
+                }
+                t.commit().map_err(e)?;
+                parent = id;
+            }
+        }
+    }
+    let img: DirImage = read_dir_image(&dir).into_iter().filter(|(k, _)| !k.ends_with("-shm")).collect();
+    let got = ecrash::recover(&img, GEN_SEED, &known, false).map_err(|e| format!("pinned tree cannot read its own directory of encoded-looking payloads: {e}"))?;
+    if got.clients.get(&0).map(|c| c.0.len()) != Some(payloads.len()) {
+        return Err("pinned tree reads back something else than it stored (encoded-looking payloads)".into());
+    }
+    write_dir_image(&d, &img);
+    let clients: Vec<Value> = got.clients.iter().map(|(c, (chain, snap))| json!({
+        "client": c,
+        "chain": chain.iter().map(|(i, p, h, l)| json!([i.to_string(), p.to_string(), format!("{h:016x}"), l])).collect::<Vec<_>>(),
+        "snapshot": snap.as_ref().map(|(v, h, l)| json!([v.to_string(), format!("{h:016x}"), l])),
+    })).collect();
+    let meta = json!({
+        "kind": "raw", "extra": "encoded-payloads", "seed": GEN_SEED,
+        "description": "clean shutdown; payloads and snapshots that look like encodings (zlib / gzip / deflate streams - complete, trailed, truncated -, magic numbers with and without a stream behind them, armoured text)",
+        "history": [format!("{} x AddVersion(A)", payloads.len()), format!("{} x AddVersion(B)", payloads.len())],
+        "has_wal": img.keys().any(|k| k.ends_with("-wal")),
+        "known_ids": known.iter().map(|u| u.to_string()).collect::<Vec<_>>(),
+        "expected": clients,
+    });
+    std::fs::write(d.join("meta.json"), serde_json::to_string(&meta).unwrap()).map_err(|e| e.to_string())?;
+    println!("corpus: directory of encoded-looking payloads written to {}", d.display());
+    Ok(())
+}
+
 pub fn generate_legacy_fork(out: &Path) -> Result<(), String> {
     use taskchampion_sync_server_core::{Snapshot, Storage};
     if has_extra(out, "legacy-fork") {
